@@ -64,22 +64,23 @@ def _assign(shape, offset):
     return walk(shape)
 
 
-def _build(desc):
+def _fill(schema, children):
+    """declare `children` (desc nodes) on schema, top-down"""
     import cincoconfig as cc
     kinds = _kinds()
+    for node in children:
+        if node[0] == "leaf":
+            setattr(schema, node[1], kinds[node[2]][0]())
+        else:
+            sub = cc.Schema()
+            setattr(schema, node[1], sub)
+            _fill(sub, node[2])
+    return schema
 
-    def fill(schema, children):
-        for node in children:
-            if node[0] == "leaf":
-                setattr(schema, node[1], kinds[node[2]][0]())
-            else:
-                sub = cc.Schema()
-                setattr(schema, node[1], sub)
-                fill(sub, node[2])
 
-    root = cc.Schema()
-    fill(root, desc)
-    return root
+def _build(desc):
+    import cincoconfig as cc
+    return _fill(cc.Schema(), desc)
 
 
 def _paths(desc, prefix=""):
@@ -135,11 +136,12 @@ def _make_cfg(schema, desc, state):
 
 
 # ------------------------------------------------------------------------------------------------ checks
-def _check_naming(desc):
-    """-> list of (obligation, what, witness_key)"""
+def _check_naming(desc, schema=None):
+    """-> list of (obligation, what, witness_key).  schema: already built by some construction history whose final
+    shape is desc (default: built top-down from desc)"""
     import cincoconfig as cc
     fails = []
-    schema = _build(desc)
+    schema = _build(desc) if schema is None else schema
     expected = _paths(desc)
     got = cc.get_all_fields(schema)
     if [g[0] for g in got] != [p for p, _ in expected]:
@@ -182,11 +184,11 @@ def _check_naming(desc):
     return fails
 
 
-def _check_config_access(desc, state):
+def _check_config_access(desc, state, schema=None):
     import cincoconfig as cc
     kinds = _kinds()
     fails = []
-    schema = _build(desc)
+    schema = _build(desc) if schema is None else schema
     cfg = _make_cfg(schema, desc, state)
     for path, kind in _paths(desc):
         depth = path.count(".") + 1
@@ -250,10 +252,10 @@ def _expected_options(desc):
     return exp
 
 
-def _check_parser(desc, target):
+def _check_parser(desc, target, schema=None):
     import cincoconfig as cc
     fails = []
-    schema = _build(desc)
+    schema = _build(desc) if schema is None else schema
     src = schema if target == "schema" else schema()
     try:
         with capture_stdout():
@@ -430,7 +432,121 @@ def _check_override(desc, supplied, ignore, state, pre=None):
     return fails
 
 
+# ------------------------------------------------------------------------------------------------ construction histories
+COMPONENTS = {
+    "flat": [["leaf", "host", "str"], ["leaf", "port", "port"]],
+    "nested": [["leaf", "host", "str"], ["schema", "pool", [["leaf", "size", "int"], ["leaf", "on", "bool_f"]]]],
+    "deep": [["schema", "pool", [["schema", "limits", [["leaf", "max_n", "int"]]], ["leaf", "name", "str"]]],
+             ["leaf", "debug", "bool_n"]],
+}
+MOUNTS = ("attr", "attr-two-levels", "setitem-dotted", "setitem-dotted-3", "via-detached-parent", "parent-first",
+          "moved-from-holder", "moved-between-parents")
+READS = ("never", "before", "after-each", "before-and-after")
+
+
+def _read_paths(component):
+    """what a user does to look at a component's names: every way of asking for a reference path"""
+    import cincoconfig as cc
+    seen = [(cc.item_ref_path(component), component._ref_path)]
+    for path, _owner, field in cc.get_all_fields(component):
+        seen.append((path, cc.item_ref_path(field), field._ref_path))
+    return seen
+
+
+def _history(component, mount, reads):
+    """build a root schema bottom-up -> (root schema, desc of its final shape, failed clauses on the detached part)"""
+    import cincoconfig as cc
+    kinds = _kinds()
+    children = COMPONENTS[component]
+    fails = []
+    comp = _fill(cc.Schema(), children)  # detached component
+    if reads in ("before", "before-and-after"):
+        _read_paths(comp)
+        # a detached component is a schema too: the naming clauses hold for it as they stand
+        fails = [(o, w, "detached-component:%s" % component) for o, w, _k in _check_naming(children, schema=comp)]
+        _read_paths(comp)
+    after = reads in ("after-each", "before-and-after")
+    root = cc.Schema()
+    root.alpha = kinds["int"][0]()
+    if mount == "attr":
+        root.db = comp
+        mounted = [["schema", "db", children]]
+    elif mount == "attr-two-levels":
+        root.services.db = comp
+        mounted = [["schema", "services", [["schema", "db", children]]]]
+    elif mount == "setitem-dotted":
+        root["services.db"] = comp
+        mounted = [["schema", "services", [["schema", "db", children]]]]
+    elif mount == "setitem-dotted-3":
+        root["app.services.db"] = comp
+        mounted = [["schema", "app", [["schema", "services", [["schema", "db", children]]]]]]
+    elif mount == "via-detached-parent":
+        mid = cc.Schema()
+        mid.enabled = kinds["bool_t"][0]()
+        mid.db = comp
+        if after:
+            _read_paths(comp)
+            _read_paths(mid)
+        root.services = mid
+        mounted = [["schema", "services", [["leaf", "enabled", "bool_t"], ["schema", "db", children]]]]
+    elif mount == "parent-first":
+        mid = cc.Schema()
+        mid.enabled = kinds["bool_t"][0]()
+        root.services = mid
+        if after:
+            _read_paths(mid)
+        mid.db = comp
+        mounted = [["schema", "services", [["leaf", "enabled", "bool_t"], ["schema", "db", children]]]]
+    elif mount == "moved-from-holder":  # first mounted in a schema that is thrown away, then in the real root
+        holder = cc.Schema()
+        holder.tmp = comp
+        if after:
+            _read_paths(comp)
+            _read_paths(holder)
+        root.services.db = comp
+        mounted = [["schema", "services", [["schema", "db", children]]]]
+    elif mount == "moved-between-parents":  # two detached parents in turn, the second one goes into the root
+        first, second = cc.Schema(), cc.Schema()
+        first.one = comp
+        if after:
+            _read_paths(comp)
+        second.two = comp
+        if after:
+            _read_paths(comp)
+            _read_paths(second)
+        root.app.services = second
+        mounted = [["schema", "app", [["schema", "services", [["schema", "two", children]]]]]]
+    else:
+        raise ValueError(mount)
+    if after:
+        _read_paths(comp)
+        _read_paths(root)
+    root.zeta = kinds["str"][0]()
+    desc = [["leaf", "alpha", "int"]] + mounted + [["leaf", "zeta", "str"]]
+    return root, desc, fails
+
+
+def _check_history(component, mount, reads):
+    try:
+        root, desc, fails = _history(component, mount, reads)
+    except Exception as exc:
+        return [("core:Schema.__setattr__/raise:C16.mounting-a-component-is-total",
+                 "building the schema bottom-up (%s, %s, reads %s) raised %s: %s"
+                 % (component, mount, reads, type(exc).__name__, exc), "bottom-up:%s:%s" % (mount, reads))]
+    wk = "bottom-up:%s:%s" % (mount, reads)
+    found = _check_naming(desc, schema=root)
+    found += _check_config_access(desc, "fresh", schema=root)
+    found += _check_parser(desc, "schema", schema=root)
+    seen = set()
+    for o, w, _k in found:
+        if o not in seen:  # one witness per clause and history
+            seen.add(o)
+            fails.append((o, "[component %s mounted by %s, paths read %s] %s" % (component, mount, reads, w), wk))
+    return fails
+
+
 CHECKS = {"naming": lambda c: _check_naming(c["schema"]),
+          "history": lambda c: _check_history(c["component"], c["mount"], c["reads"]),
           "config": lambda c: _check_config_access(c["schema"], c["state"]),
           "parser": lambda c: _check_parser(c["schema"], c["target"]),
           "override": lambda c, pre=None: _check_override(c["schema"], c["supplied"], c["ignore"], c["state"], pre)}
@@ -451,13 +567,31 @@ def rac(tier="quick", seed=0):
         rule="schema = tree shape (depth <= 3, width <= 3) with keys alpha/b_two/Cx by sibling position and leaf kinds "
              "rotating through 10 field kinds (quick: offsets 3i and 3i+5 mod 10 for shape i; thorough: 4 offsets); cases: (schema, naming), (schema, config access, state), "
              "(schema, parser, schema|config), (schema, command line, ignore list, state); a case is non-trivial iff "
-             "the schema has at least one field (all do); distinct by full description",
-        bound="3 flat + 81 depth-2 shapes (exhaustive for width <= 3) + 51 depth-3 shapes; command "
+             "the schema has at least one field (all do); distinct by full description; (component, mount, reads) = "
+             "construction history: a detached component schema is built, its reference paths are read (or not) before "
+             "and/or after each mount step, it is mounted into the root, then all naming/config/parser clauses are "
+             "evaluated on the final root",
+        bound="histories: 3 components (flat, nested, depth 3) x 8 mounts (attribute, two levels, schema['a.b'] = c, "
+              "schema['a.b.c'] = c, via detached parent, parent first, moved from a discarded holder, moved between two "
+              "parents) x 4 read schedules (never, before, after each step, both); "
+              "3 flat + 81 depth-2 shapes (exhaustive for width <= 3) + 51 depth-3 shapes; command "
               "lines: empty, every single option (on and off for booleans), up to 6 pairs, all options at once, up to 2 "
               "invalid values; ignore lists: None, [], [supplied], 'supplied' (str), [unsupplied], all supplied; states: "
               "fresh defaults (all ignore lists), every leaf user-set (quick: ignore None and [supplied] only)",
         tier=tier, seed=seed)
     shapes = _shapes(tier)
+    with sandbox():
+        for component in COMPONENTS:
+            for mount in MOUNTS:
+                for reads in READS:
+                    case = {"check": "history", "component": component, "mount": mount, "reads": reads}
+                    fails = CHECKS["history"](case)
+                    rec.case(key=("history", component, mount, reads), nontrivial=True,
+                             sample=case if (component, mount, reads) == ("nested", "via-detached-parent", "before") else None)
+                    for obligation, what, wk in fails:
+                        rp = dict(case)
+                        rp["obligation"] = obligation
+                        rec.violation(obligation=obligation, what=what, replay=rp, witness_key=wk)
     with sandbox():
         for si, shape in enumerate(shapes):
             # quick: two kind offsets per shape, varying with the shape index so that every kind meets every position
